@@ -91,6 +91,11 @@ theorem json_illformed_string_fails (J : JsonEnv) (env : Env) (hL : LeavesOK J.l
     fromJson J env d (toJson J env d v) ≠ some v :=
   fun h => hu ((json_roundtrip_iff_strings J env hL d v hwf hc).1 h).2
 
+/-- The JSON object written for a message is a finite map: pairwise distinct member names, none of them `"@type"`. -/
+theorem json_object_is_map (J : JsonEnv) (env : Env) (d : MsgDesc) (v : Val) (hwf : JWF J env d) (hc : JCanonical J env d v) :
+    ∃ kvs, toJson J env d v = .obj kvs ∧ (kvs.map Prod.fst).Nodup ∧ typeKey ∉ kvs.map Prod.fst :=
+  toJsonAt_members_distinct J env depthFuel d v hwf hc
+
 /-- A descriptor without enum-typed fields anywhere below it round-trips for all well-typed values with UTF-8 strings. -/
 theorem json_roundtrip_no_enums (J : JsonEnv) (env : Env) (hL : LeavesOK J.leaves) (d : MsgDesc) (v : Val)
     (hwf : JWF J env d) (hne : noEnums J env d = true) (hc : JCanonical J env d v) (hu : StringsUtf8 J env d v) :
